@@ -324,6 +324,14 @@ func (d *Decoder) decodeRegisteredObject() Object {
 		return nil
 	}
 
+	if _, isEnum := enumCrcs[crc]; isEnum {
+		// an enum value is its bare constructor id; its registered type is the uint32-kinded enum type
+		// itself, not a pointer to a struct
+		e := reflect.New(_typ).Elem()
+		e.SetUint(uint64(crc))
+		return e.Interface().(Object)
+	}
+
 	o := reflect.New(_typ.Elem()).Interface().(Object)
 
 	if m, ok := o.(Unmarshaler); ok {
